@@ -2,7 +2,8 @@
 
 # steps that never push a program variable (every other step does, so the minimiser must keep it)
 NON_PRODUCERS = {"T", "UT", "transpose", "at", "atbox", "setat", "memset", "zero", "copy", "copyto", "reshape",
-                 "iter", "dump", "calcS", "calcT", "calcRepeat", "calcConcat", "harden", "soften", "setmask", "mq", "mruns", "miter", "mdump"}
+                 "iter", "dump", "calcS", "calcT", "calcRepeat", "calcConcat", "harden", "soften", "setmask", "mq", "mruns", "miter", "mdump",
+                 "msetat", "mseti", "mreset", "mfromslice", "mfromdense"}
 
 TRUSTED_BASE = [
     "Lean 4.33.0 kernel (thorough tier: re-checked with leanchecker); axioms limited to propext, Classical.choice, Quot.sound (audited with #print axioms on every run)",
@@ -46,10 +47,11 @@ PROPS = {
         "rule": "shapes of rank 0-3 (quick) / 0-4 (thorough) with dims {1,2,3} plus equal-dim and rank-5 shapes x all axis permutations x element widths {1,2,4,8,16 bytes, string} x sources {row-major, column-major raw, column-major converting, sliced view} x random continuations of T/UT/Transpose; dumps of tensor and parent after every step",
     },
     "C05": {
-        "lean_modules": ["C05"],
+        "lean_modules": ["C05", "C05mult"],
         "pre_cmds": [GOL],
         "trusted_extra": [GOL_TRUST],
-        "rule": "every shape of rank 0-3 and vector-like rank-4 shapes x constructors x {as built, every transpose, random slices, slices of transposes} x scripts of Next/Reset/SetReverse/SetForward/Coord/Done; offsets, coordinates, exhaustion and the cells read at the offsets are compared",
+        "rule": "every shape of rank 0-3 and vector-like rank-4 shapes x constructors x {as built, every transpose, random slices, slices of transposes} x scripts of Next/Reset/SetReverse/SetForward/Coord/Done; offsets, coordinates, exhaustion and the cells read at the offsets are compared; multi-iterator (IteratorFromDense over 2-4 tensors): shapes of rank 0-4 incl. (n), (1,n), (n,1), (1,1,n), all-ones x every pair (thorough: triple) of operand layouts {contiguous, lazily transposed, offset slice, stepped slice, column-major raw / converting, materialised, row vector with inner stride 3} x {same variable twice, same strides twice, swapped / rotated operands} x scripts {N, rN, nnxN, nrN, Nd, mixed direction switches / Start / Reset / Done / LastIndex}; per call the returned index, LastIndex(j) of every operand, Coord, exhaustion and the cells of every operand at its LastIndex(j) are compared; unequal shapes and masked operands: correspondence only",
+        "assumptions": ["hashIntArray (64-bit FNV-1a) does not collide on the stride lists of the operands of one NewMultIterator call: the model keys stride blocks by the stride list itself"],
     },
     "C04": {
         "lean_modules": ["C04"],
@@ -96,8 +98,8 @@ PROPS = {
         "rule": "5 formats (gob, NumPy .npy, CSV, protobuf, flatbuffers) x 16 element types (accepted and refused ones) x shapes of rank 0-4 (scalars, length-one axes, row / column vectors) x layouts {contiguous, column-major raw, column-major converting, lazily transposed, lazily transposed column-major, non-contiguous slice, stepped slice, contiguous row view, materialised, physically transposed} x masks {none, some, first row only, all, all clear} x value sets {distinct, extremes / NaN / Inf / -0}; one step encodes to a buffer and decodes into a new tensor (encode and decode outcomes reported separately), the decoded tensor and the source are dumped and compared logically (element type, shape, every element, mask by coordinate); the bytes WriteNpy produced are additionally parsed by an independent .npy reader in the harness; random chains of slice / T / Transpose / Clone / Materialize before the round trip, a second round trip on the decoded tensor, and a malformed stream",
     },
     "C15": {
-        "lean_modules": ["C15"],
-        "rule": "9 masking predicates x 16 element types x soft/hard x prior mask {none, all false, random, all true}, each followed by full dumps and a second predicate in another mode; the same over layouts {contiguous, lazily transposed, physically transposed, row slice, offset slice with gaps, stepped slice, column-major, materialised} and on views of unmasked tensors; special values / ties through boolean terms; every mask over n <= 8 (quick) / 10 (thorough) elements on the vector shape and seeded samples on scalar, row/column-vector, matrix and rank-3 shapes with MaskedCount/NonMaskedCount/MaskedAny/MaskedAll (whole tensor and per axis), the six run and edge finders, NextValid/NextInvalid/NextValidity to exhaustion forward and reverse, Filled; iteration scripts; Filled/FilledInplace x 16 types; chains of T/UT/Transpose/Slice/Materialize/Clone on masked tensors with the logical mask dumped after every step; arithmetic / comparison / unary / Apply on masked operands x option modes x TT/TS/ST x layouts compared at the positions valid in all operands; malformed cases",
+        "lean_modules": ["C15", "C15ops"],
+        "rule": "9 masking predicates x 16 element types x soft/hard x prior mask {none, all false, random, all true}, each followed by full dumps and a second predicate in another mode; the same over layouts {contiguous, lazily transposed, physically transposed, row slice, offset slice with gaps, stepped slice, column-major, materialised} and on views of unmasked tensors; special values / ties through boolean terms; every mask over n <= 8 (quick) / 10 (thorough) elements on the vector shape and seeded samples on scalar, row/column-vector, matrix and rank-3 shapes with MaskedCount/NonMaskedCount/MaskedAny/MaskedAll (whole tensor and per axis), the six run and edge finders, NextValid/NextInvalid/NextValidity to exhaustion forward and reverse, Filled; iteration scripts; Filled/FilledInplace x 16 types; chains of T/UT/Transpose/Slice/Materialize/Clone on masked tensors with the logical mask dumped after every step; arithmetic / comparison / unary / Apply on masked operands x option modes x TT/TS/ST x layouts compared at the positions valid in all operands; malformed cases; family MaskOps (gen_maskops.go): Argmax/Argmin of masked tensors x 13 ordered element types x 8 layouts x mask classes {random, none set, all set, no mask, alternating, whole lanes set} x every axis + flat x value sets with ties / negatives / NaN / Inf, Sum/Max/Min of masked tensors, SetMaskAt (every coordinate class incl. out of range / negative / wrong arity) and SetMaskAtIndex (every index incl. out of range) x 8 layouts x masked / unmasked with the parent dumped, ResetMask x value / none x layouts, MaskFromSlice x 16 slice types + unsupported inputs x size relations, MaskFromDense with 1-3 operands (nil, the receiver itself, other sizes, other layouts), New(...) with WithMask in 14 option orders x mask types x size relations, and div / mod / pow / gte / lte / ne, MinBetween / MaxBetween and 7 further unary operations on masked operands",
     },
     "C16": {
         "lean_modules": ["C16"],
